@@ -64,8 +64,21 @@ def set_strategy(tier):
             lambda o: dict(o, remove_empties=True, strip=True)),
         'size': G.size_strategy(),
     })
-    return st.integers(0, 11).flatmap(
-        lambda k: nothing if k == 0 else regular)
+    # as many distinct examples as may still be used in full, more of them
+    # with repeats: whether rexpy samples must go by the distinct count
+    threshold = st.fixed_dictionaries({
+        'examples': st.permutations(['alpha', 'beta', 'gamma', 'delta',
+                                     'eps_one', 'zeta-two', 'eta-seven',
+                                     'theta']).map(list),
+        'opts': G.opts_strategy(with_pruning=False).map(
+            lambda o: dict(o, extra_letters='_-', strip=False)),
+        'size': st.sampled_from([{'do_all': 10, 'do_all_exceptions': 3},
+                                 {'do_all': 8, 'do_all_exceptions': 2},
+                                 {'do_all': 9, 'do_all_exceptions': 1,
+                                  'n_per_length': 1}]),
+    })
+    return st.integers(0, 14).flatmap(
+        lambda k: nothing if k == 0 else threshold if k == 1 else regular)
 
 
 def step_strategy():
